@@ -5,7 +5,7 @@
 From Coq Require Import List QArith ZArith NArith Bool Arith.
 From QmcV Require Import Model.Prog Model.Sse Model.Nav Model.Ham Model.Diagonal Model.Cluster Model.ClusterValid
      Model.Convert Proofs.ProgLemmas Proofs.DiagonalProofs Proofs.ConvertProofs Proofs.SseWeight
-     Proofs.ClusterProofs Proofs.ClusterFlipProofs Proofs.ThermalProofs.
+     Proofs.ClusterProofs Proofs.ClusterFlipProofs Proofs.ThermalProofs Proofs.WorldLine Proofs.Expect Proofs.SweepStationary.
 Import ListNotations.
 Open Scope Q_scope.
 
@@ -104,3 +104,80 @@ Theorem C01_offset_accounting : forall g,
   ising_offset g - convert_offset g == (Z.of_nat (i_nvars g) # 1) * i_gamma g.
 Proof. exact offset_difference. Qed.
 Print Assumptions C01_offset_accounting.
+
+(* ---- kernel identification: the whole Metropolis diagonal update, as a program on complete
+   configurations (p = 0 state, operator string), leaves the SSE weight stationary ----
+
+   [update_cfg (met_update H beta)] is the model term replayed against the implementation on raw RNG
+   words (it runs [met_update] at cutoff = string length and returns the new configuration).
+   [canon H sts L] enumerates EVERY consistent, legal configuration of length L whose p = 0 state is in
+   [sts] (C01_configuration_space_complete).  Weak form: for every observable f,
+        sum_x W(x) E_{update(x)}[f]  =  sum_x W(x) f(x). *)
+Theorem C01_metropolis_update_stationary : forall H beta L sts,
+  0 < beta -> (0 < h_nbonds H)%nat ->
+  forall f : cfg -> Q,
+    Qsum (map (fun x => sse_weight H beta (snd x) * expect (update_cfg (met_update H beta) x) f) (canon H sts L))
+    == Qsum (map (fun x => sse_weight H beta (snd x) * f x) (canon H sts L)).
+Proof. exact metropolis_update_stationary_canon. Qed.
+Print Assumptions C01_metropolis_update_stationary.
+
+(* the same read at a point: the probability flow into every configuration equals its weight *)
+Theorem C01_metropolis_update_stationary_pointwise : forall H beta L sts y,
+  0 < beta -> (0 < h_nbonds H)%nat -> In y (canon H sts L) ->
+  Qsum (map (fun x => sse_weight H beta (snd x)
+                      * mass (cfg_eqb y) (denote (update_cfg (met_update H beta) x))) (canon H sts L))
+  == sse_weight H beta (snd y).
+Proof. exact metropolis_update_stationary_pointwise. Qed.
+Print Assumptions C01_metropolis_update_stationary_pointwise.
+
+(* the enumeration misses nothing: every consistent legal configuration over the state list is in it,
+   it has no duplicates, contains only consistent legal configurations of length L and is closed under
+   every single-slot change that keeps a configuration consistent and legal *)
+Theorem C01_configuration_space_complete : forall H sts s sl,
+  In s sts -> good H (s, sl) = true -> In (s, sl) (canon H sts (length sl)).
+Proof. exact canon_complete. Qed.
+Print Assumptions C01_configuration_space_complete.
+
+Theorem C01_configuration_space_ok : forall H sts L, space_ok H L (canon H sts L).
+Proof. exact canon_space_ok. Qed.
+Print Assumptions C01_configuration_space_ok.
+
+(* the identification itself: on a consistent configuration the sweep program of the model (state and
+   live count threaded slot by slot) has the same expectation, for every observable, as the
+   composition of the single-slot kernels on complete configurations *)
+Theorem C01_sweep_is_composition_of_slot_kernels : forall H (slotf : nat -> slotfn) s sl (f : cfg -> Q),
+  (forall L n, slot_spec H (slotf L n)) -> wf s sl = true ->
+  expect (update_cfg (diagonal_update slotf) (s, sl)) f
+  == expect (cfg_sweep (slotf (length sl)) 0 (length sl) (s, sl)) f.
+Proof. exact diagonal_update_is_cfg_sweep. Qed.
+Print Assumptions C01_sweep_is_composition_of_slot_kernels.
+
+(* each single-slot kernel is in detailed balance with the SSE weight between ANY two consistent legal
+   configurations of length L (not only an insertion/removal pair) *)
+Theorem C01_slot_kernel_detailed_balance : forall H beta L p x y,
+  0 < beta -> (0 < h_nbonds H)%nat ->
+  length (snd x) = L -> length (snd y) = L -> good H x = true -> good H y = true ->
+  sse_weight H beta (snd x) * mass (cfg_eqb y) (denote (slot_at (fun n st o => met_slot H L n beta st o) p x))
+  == sse_weight H beta (snd y) * mass (cfg_eqb x) (denote (slot_at (fun n st o => met_slot H L n beta st o) p y)).
+Proof.
+  intros H beta L p x y Hb Hk. exact (slot_at_detailed_balance H beta L _ (met_slot_good H beta L Hb Hk) p x y Hb).
+Qed.
+Print Assumptions C01_slot_kernel_detailed_balance.
+
+(* stationarity is kept by composition of program-valued kernels, with no side condition *)
+Theorem C01_stationary_kernels_compose : forall (xs : list cfg) (Wt : cfg -> Q) (K1 K2 : cfg -> prog cfg),
+  wstat xs Wt K1 -> wstat xs Wt K2 -> wstat xs Wt (fun x => bind (K1 x) K2).
+Proof. exact (@wstat_comp cfg). Qed.
+Print Assumptions C01_stationary_kernels_compose.
+
+(* non-vacuity: for a two-spin antiferromagnetic bond plus a constant single-site term at cutoff 2 the
+   space has 30 configurations, all of positive weight, and the flow equation holds at each of them *)
+Example C01_ex_stationary_space :
+  let sp := canon ex_ham (all_substates 2) 2 in
+  length sp = 30%nat
+  /\ forallb (fun c => negb (Qle_bool (sse_weight ex_ham (1 # 2) (snd c)) 0)) sp = true
+  /\ forallb (fun y => Qeq_bool
+        (Qsum (map (fun x => sse_weight ex_ham (1 # 2) (snd x)
+                             * mass (cfg_eqb y) (denote (update_cfg (met_update ex_ham (1 # 2)) x))) sp))
+        (sse_weight ex_ham (1 # 2) (snd y))) sp = true.
+Proof. vm_compute. repeat split. Qed.
